@@ -206,6 +206,24 @@ def r3(ctx, R):
             resolver = g
     if adder is None or resolver is None:
         raise AnalysisError("directory discovery functions not found")
+    # the recursive walk visits the whole tree: its directory list is not pruned
+    for lp in (n for n in ctx.m.walk_own(adder.node) if isinstance(n, ast.For) and isinstance(n.iter, ast.Call) and ctx.m.dotted(adder.rel, n.iter.func) == "os.walk"):
+        dv = lp.target.elts[1].id if isinstance(lp.target, ast.Tuple) and len(lp.target.elts) == 3 and isinstance(lp.target.elts[1], ast.Name) else None
+        topdown_false = any(kw.arg == "topdown" and isinstance(kw.value, ast.Constant) and kw.value.value is False for kw in lp.iter.keywords)
+        prune = None
+        for n in ast.walk(lp):
+            if dv is None:
+                break
+            if isinstance(n, ast.Assign) and any(isinstance(t, ast.Subscript) and isinstance(t.value, ast.Name) and t.value.id == dv for t in n.targets):
+                prune = n
+            elif isinstance(n, ast.Call) and isinstance(n.func, ast.Attribute) and isinstance(n.func.value, ast.Name) and n.func.value.id == dv and n.func.attr in ("remove", "clear", "pop"):
+                prune = n
+            elif isinstance(n, ast.Delete) and any(isinstance(t, ast.Subscript) and isinstance(t.value, ast.Name) and t.value.id == dv for t in n.targets):
+                prune = n
+        if prune is not None and not topdown_false:
+            R.violation("C18.R3", adder.short, "recursive walk visits every directory", loc(adder, prune), f"the walk's directory list `{dv}` is pruned: sub-directories of a pruned directory are never visited, so source directories that no exclusion path matches are silently left out")
+        else:
+            R.ok("C18.R3", adder.short, "recursive walk visits every directory", loc(adder, lp))
     # adder: early returns + guarded add
     F = ctx.facts(adder, interproc=False)
     adds = [c for c in calls_in(adder.node) if isinstance(c.func, ast.Attribute) and c.func.attr == "add" and "source_dirs" in unparse(c.func.value)]
